@@ -82,6 +82,9 @@ Next == \/ Extend \/ Start
 
 Spec == Init /\ [][Next]_vars
 
+(* the content snapshots in `hist` only serve counterexample reports *)
+View == <<phase, lay, P, now, [v \in 1..Len(hist) |-> [to |-> hist[v].to, sh |-> hist[v].sh]]>>
+
 --------------------------------------------------------------------------------
 Running == phase = "run"
 Cur == hist[Len(hist)].sh
